@@ -49,7 +49,7 @@ type Config struct {
 	KeepCommitted   bool // keep using a writer after its successful commit
 }
 
-var validRepoPool = []string{"foo", "foo/bar", "fooey", "a/blobs/uploads", "manifests/x/tags", "b", "x1/referrers", "v2/list"}
+var validRepoPool = []string{"foo", "foo/bar", "fooey", "a/blobs/uploads", "manifests/x/tags", "b", "x1/referrers", "v2/list", "team/my__repo.x-y"}
 var invalidRepoPool = []string{"Bad", "a//b", "", "../x", "a/"}
 var tagPool = []string{"latest", "v1", "list", "t_3", "uploads"}
 var invalidTagPool = []string{"-bad", "a/b"}
